@@ -26,7 +26,7 @@ OUTPUT_KEYS = ('exit', 'ocs', 'listing', 'lines', 'diag', 'printed', 'printedDev
 def op_key(lab):
     """identity of the operation: the label minus its outputs"""
     return json.dumps(world.canon({k: v for k, v in lab.items()
-                                   if k not in ('exit', 'ocs', 'listing', 'lines', 'diag', 'printed')}), sort_keys=True)
+                                   if k not in OUTPUT_KEYS}), sort_keys=True)
 
 
 def group_edges(edges):
